@@ -2,6 +2,7 @@ package memtable
 
 import (
 	"bytes"
+	"github.com/KevoDB/kevo/pkg/verifhook"
 	"math/rand"
 	"sync"
 	"sync/atomic"
@@ -182,8 +183,10 @@ func (s *SkipList) Insert(e *entry) {
 
 	// Insert the node at each level - from bottom up
 	for level := 0; level < height; level++ {
+		verifhook.At("skiplist.insert.level")
 		// Link the new node's next pointer to the next node at this level
 		node.setNext(level, prev[level].getNext(level))
+		verifhook.At("skiplist.insert.linkPrev")
 		// Link the previous node's next pointer to the new node
 		prev[level].setNext(level, node)
 	}
